@@ -14,8 +14,9 @@ def list_sort(elem_sort):
     if k not in _DTS:
         name = "L_" + "".join(c if c.isalnum() else "_" for c in k)
         dt = z3.Datatype(name)
-        dt.declare("mkl", ("len", z3.IntSort()), ("arr", z3.ArraySort(z3.IntSort(), elem_sort)))
+        dt.declare("mkl!" + name, ("len!" + name, z3.IntSort()), ("arr!" + name, z3.ArraySort(z3.IntSort(), elem_sort)))
         dt = dt.create()
+        dt.mkl, dt.len, dt.arr = dt.constructor(0), dt.accessor(0, 0), dt.accessor(0, 1)
         _DTS[k] = dt
         _BY_SORT[str(dt)] = (dt, elem_sort)
     return _DTS[k]
@@ -75,7 +76,7 @@ def Snoc(a, x):
 
 def _is_unit(t):
     """mkl(1, Store(K(d), 0, x)) -> x"""
-    if z3.is_app(t) and t.decl().name() == "mkl":
+    if z3.is_app(t) and t.decl().name().startswith("mkl!"):
         ln, arr = t.arg(0), t.arg(1)
         if z3.is_int_value(ln) and ln.as_long() == 1 and z3.is_store(arr) and z3.is_int_value(arr.arg(1)) and arr.arg(1).as_long() == 0 \
                 and z3.is_const_array(arr.arg(0)):
@@ -84,7 +85,7 @@ def _is_unit(t):
 
 
 def _is_empty(t):
-    return z3.is_app(t) and t.decl().name() == "mkl" and z3.is_int_value(t.arg(0)) and t.arg(0).as_long() == 0
+    return z3.is_app(t) and t.decl().name().startswith("mkl!") and z3.is_int_value(t.arg(0)) and t.arg(0).as_long() == 0
 
 
 _lam = [0]
@@ -196,8 +197,7 @@ def NonNegLen(t):
 
 def CellsCanonical(t):
     dt, es = _info(t)
-    _lam[0] += 1
-    i = z3.Int(f"i!can{_lam[0]}")
+    i = z3.Int("i!can")
     body = z3.Implies(z3.Or(i < 0, i >= dt.len(t)), z3.Select(dt.arr(t), i) == dflt(es))
     if pattern_ok(t):
         return z3.ForAll([i], body, patterns=[z3.Select(dt.arr(t), i)])
